@@ -517,7 +517,7 @@ package dig
 //@        && is(recvOf(Call_1), ptr(constructorNode)) && as(err, errParamSingleFailed).CtorID == as(recvOf(Call_1), ptr(constructorNode)).id
 //@   ensures[C04:optional-tolerates-missing-dependencies-at-any-depth] reached(Call_1) && ps.Optional && ret(Call_1, 0) != nil && chainHasMissingDeps(ret(Call_1, 0)) ==> err == nil && v == zeroV(ps.Type)
 //@   ensures[C04:provider-error-not-hidden] reached(Call_1) && ret(Call_1, 0) != nil && !(ps.Optional && chainHasMissingDeps(ret(Call_1, 0))) ==> err != nil
-//@   site call (dig.provider).Call #1: assert[C08:provider-sees-its-own-scope,C01:provider-sees-its-own-scope] is($recv, ptr(constructorNode)) && isScope($arg0) && scopeOf($arg0) == as($recv, ptr(constructorNode)).origS
+//@   site call (dig.provider).Call #1: assert[C08:provider-sees-its-own-scope,C01:provider-sees-its-own-scope,C03:provider-sees-its-own-scope] is($recv, ptr(constructorNode)) && isScope($arg0) && scopeOf($arg0) == as($recv, ptr(constructorNode)).origS
 //@   site call (dig.provider).Call #1: assert[C03:provider-is-registered-for-the-key] exists j int, idx int :: 0 <= j && j < S.nanc && 0 <= idx
 //@        && idx < len(at(storesToRoot_1, S.anc[j].providers[k])) && $recv == at(storesToRoot_1, S.anc[j].providers[k][idx])
 
@@ -615,16 +615,16 @@ package dig
 //@   ensures[C03:knot-mono] knotMono()
 //@   onpanic[C03:knot-mono-panic] knotMono()
 //@   ensures[C10:feeder-count-non-negative] n >= 0
-//@   ensures[C10:every-visible-feeder-called] err == nil ==> forall j int, m int :: 0 <= j && j < S.nanc && 0 <= m && m < len(S.anc[j].providers[k]) ==> S.anc[j].providers[k][m].called
+//@   ensures[C10:every-visible-feeder-called,C03:every-visible-feeder-called] err == nil ==> forall j int, m int :: 0 <= j && j < S.nanc && 0 <= m && m < len(S.anc[j].providers[k]) ==> S.anc[j].providers[k][m].called
 //@   ensures[C13:group-provider-error-wrapped] err != nil ==> is(err, errParamGroupFailed) && as(err, errParamGroupFailed).Key == k && as(err, errParamGroupFailed).Reason == ret(Call_1, 0)
 //@        && is(recvOf(Call_1), ptr(constructorNode)) && as(err, errParamGroupFailed).CtorID == as(recvOf(Call_1), ptr(constructorNode)).id
-//@   loop range c.storesToRoot() #1: invariant[C10:feeders-of-nearer-scopes-called] forall j int, m int :: 0 <= j && j < $i && 0 <= m && m < len(S.anc[j].providers[k]) ==> S.anc[j].providers[k][m].called
+//@   loop range c.storesToRoot() #1: invariant[C10:feeders-of-nearer-scopes-called,C03:feeders-of-nearer-scopes-called] forall j int, m int :: 0 <= j && j < $i && 0 <= m && m < len(S.anc[j].providers[k]) ==> S.anc[j].providers[k][m].called
 //@   loop range c.storesToRoot() #1: invariant[C03:knot-mono-loop] knotMono()
 //@   loop range c.storesToRoot() #1: invariant itemCount >= 0
 //@   loop range providers #1: invariant[C10:feeders-of-this-scope-called] (forall m int :: 0 <= m && m < $i ==> S.anc[$i1].providers[k][m].called)
 //@        && (forall j int, m int :: 0 <= j && j < $i1 && 0 <= m && m < len(S.anc[j].providers[k]) ==> S.anc[j].providers[k][m].called)
 //@   loop range providers #1: invariant[C03:knot-mono-loop2] knotMono()
-//@   site call (dig.provider).Call #1: assert[C08:feeder-sees-its-own-scope] is($recv, ptr(constructorNode)) && isScope($arg0) && scopeOf($arg0) == as($recv, ptr(constructorNode)).origS
+//@   site call (dig.provider).Call #1: assert[C08:feeder-sees-its-own-scope,C03:feeder-sees-its-own-scope] is($recv, ptr(constructorNode)) && isScope($arg0) && scopeOf($arg0) == as($recv, ptr(constructorNode)).origS
 //@   site call (dig.provider).Call #1: assert[C03:feeder-is-registered-for-the-group] $recv == S.anc[$i1].providers[k][$i]
 
 //@ func shuffledCopy(rand, items) (r)
